@@ -76,11 +76,18 @@ func runStaleStack(c *Ctx) {
 	}
 	c.Stats["vm_functions_that_may_grow_the_stack"] = len(mayGrow)
 
-	stackAddr := func(e ast.Expr) bool {
+	// helpers that hand out a stack address: a Thread method returning a
+	// slice/pointer whose returned expression is itself stack-derived
+	returnsStack := map[*types.Func]bool{}
+	var stackAddr func(e ast.Expr) bool
+	stackAddr = func(e ast.Expr) bool {
 		found := false
 		ast.Inspect(e, func(n ast.Node) bool {
 			switch x := n.(type) {
 			case *ast.CallExpr:
+				if fn := Callee(info, x); fn != nil && returnsStack[fn.Origin()] {
+					found = true
+				}
 				if fn := Callee(info, x); fn != nil && recvNameOf(fn) == "Thread" {
 					switch fn.Name() {
 					case "spAdd", "fpAdd", "stackAdd", "spAddRaw", "fpAddRaw", "stackAddRaw", "spSubtractRaw", "spGet", "fpGet":
@@ -102,6 +109,48 @@ func runStaleStack(c *Ctx) {
 		})
 		return found
 	}
+	// summaries (two rounds: a helper may return what another helper returned)
+	for round := 0; round < 2; round++ {
+		for fn, fr := range byObj {
+			if returnsStack[fn] || recvTypeName(fr.Decl) != "Thread" {
+				continue
+			}
+			sig := fn.Type().(*types.Signature)
+			if sig.Results().Len() != 1 {
+				continue
+			}
+			switch sig.Results().At(0).Type().Underlying().(type) {
+			case *types.Slice:
+			default:
+				// pointer-returning primitives (spAdd, fpAdd ...) are the named sources themselves
+				continue
+			}
+			local := map[types.Object]bool{}
+			ast.Inspect(fr.Decl.Body, func(n ast.Node) bool {
+				switch x := n.(type) {
+				case *ast.AssignStmt:
+					if len(x.Lhs) == len(x.Rhs) {
+						for i, l := range x.Lhs {
+							if id, ok := l.(*ast.Ident); ok && stackAddr(x.Rhs[i]) {
+								local[info.ObjectOf(id)] = true
+							}
+						}
+					}
+				case *ast.ReturnStmt:
+					if len(x.Results) == 1 {
+						if stackAddr(x.Results[0]) {
+							returnsStack[fn] = true
+						}
+						if id, ok := ast.Unparen(x.Results[0]).(*ast.Ident); ok && local[info.Uses[id]] {
+							returnsStack[fn] = true
+						}
+					}
+				}
+				return true
+			})
+		}
+	}
+	c.Stats["vm_helpers_returning_a_stack_slice"] = len(returnsStack)
 	c.Funcs("vm", func(fr *FuncRef) {
 		if recvTypeName(fr.Decl) != "Thread" {
 			return
